@@ -74,3 +74,22 @@ package ops
 //@   ensures accepted: countok(op, len(inputs)) && typesok(op, inputs, len(inputs)) ==> err == nil && len(result) == padlen(op) &&
 //@          (forall k :: 0 <= k && k < len(inputs) ==> result[k] == inputs[k]) &&
 //@          (forall k :: len(inputs) <= k && k < len(result) ==> result[k] == nil)
+
+// ---------------------------------------------------------------------------------------
+// The Operator interface as seen by Model.applyOp (assumed at the interface call; every
+// implementation is checked against the corresponding family contract in package opset13).
+
+//@ iface Operator.Init
+//@   requires isoperator(self)
+//@   modifies opstate(self)
+
+//@ iface Operator.ValidateInputs
+//@   requires isoperator(self)
+//@   modifies opstate(self)
+//@   ensures err == nil ==> len(result) >= len(p0) && (forall k :: 0 <= k && k < len(p0) ==> result[k] == p0[k]) &&
+//@          (forall k :: len(p0) <= k && k < len(result) ==> result[k] == nil)
+
+//@ iface Operator.Apply
+//@   requires isoperator(self)
+//@   modifies opstate(self)
+//@   ensures err == nil ==> (forall k :: 0 <= k && k < len(result) ==> result[k] != nil)
